@@ -15,8 +15,8 @@ import (
 func init() {
 	core.Register(&core.Rule{
 		Name: "R-BYTECLASS",
-		Doc: "Every NFA state whose evaluation looks at input bytes is announced to the byte-class set: a function of package nfa that gives a state one of the byte-dependent kinds (ByteRange, Sparse, Look, RuneAny, RuneAnyNotNL: a store of that constant into State.kind, in a composite literal or an assignment) and is reachable from a compile root must call ByteClassSet.SetRange/SetByte (directly or through a callee of the package). The lazy DFA stores transitions per byte class, so a transition computed for one byte of a class is reused for every byte of it; bytes an assertion or a range tells apart but the class table does not make the DFA answer for the wrong byte (\\b: digits and punctuation in one class). Sibling agreement: AddByteRange and AddSparse register their ranges, so must every other constructor of a byte-inspecting state. Necessary for C14 (the lazy DFA is exact) and C01/C02.",
-		Min: 4, NeedSSA: true,
+		Doc: "Every NFA state whose evaluation looks at input bytes is announced to the byte-class set: a function of package nfa that gives a state one of the byte-dependent kinds (ByteRange, Sparse, Look, RuneAny, RuneAnyNotNL: a store of that constant into State.kind, in a composite literal or an assignment) and is reachable from a compile root must call ByteClassSet.SetRange/SetByte (directly or through a callee of the package). The lazy DFA stores transitions per byte class, so a transition computed for one byte of a class is reused for every byte of it; bytes an assertion or a range tells apart but the class table does not make the DFA answer for the wrong byte (\\b: digits and punctuation in one class). Sibling agreement: AddByteRange and AddSparse register their ranges, so must every other constructor of a byte-inspecting state. (b) The constructor of assertion states separates exactly what the assertions tell apart: its constant SetRange calls put a class boundary at every edge of the word class [0-9A-Za-z_] and around the newline ('forgot that underscore is a word character': '_' shares a class with [ \\ ] ^ and the backtick, and [d-f]\\b[^a-c] answers for 'd_' what it cached for 'd['). Necessary for C14 (the lazy DFA is exact), C13 (no history) and C01/C02.",
+		Min: 6, NeedSSA: true,
 		Run: func(p *core.Prog) *core.RuleResult {
 			res := &core.RuleResult{}
 			pk := p.SSAPkg("nfa")
@@ -120,6 +120,54 @@ func init() {
 					o.Detail = fmt.Sprintf("creates states of kind %s, whose evaluation depends on input bytes, without announcing the bytes they distinguish to the byte-class set: the lazy DFA then reuses a transition computed for one byte for other bytes the state treats differently", strings.Join(kinds[fn], ","))
 				}
 				res.Obligations = append(res.Obligations, o)
+				// (b) a constructor of assertion states separates exactly the bytes the assertions tell apart:
+				// its constant SetRange(lo, hi) calls put a class boundary below lo and above hi; every place
+				// where the word class [0-9A-Za-z_] or the newline changes membership must be such a boundary.
+				isLook := false
+				for _, k := range kinds[fn] {
+					if k == "StateLook" {
+						isLook = true
+					}
+				}
+				if !isLook {
+					continue
+				}
+				boundary := map[int]bool{} // boundary[b]: bytes b and b+1 are in different classes
+				nconst := 0
+				for _, b := range fn.Blocks {
+					for _, in := range b.Instrs {
+						c, ok := in.(*ssa.Call)
+						if !ok || c.Call.StaticCallee() == nil || c.Call.StaticCallee().Name() != "SetRange" || !registers[c.Call.StaticCallee()] || len(c.Call.Args) != 3 {
+							continue
+						}
+						lo, ok1 := constInt(c.Call.Args[1])
+						hi, ok2 := constInt(c.Call.Args[2])
+						if !ok1 || !ok2 {
+							continue
+						}
+						nconst++
+						boundary[int(lo)-1] = true
+						boundary[int(hi)] = true
+					}
+				}
+				word := func(b int) bool {
+					return b >= '0' && b <= '9' || b >= 'A' && b <= 'Z' || b >= 'a' && b <= 'z' || b == '_'
+				}
+				var missing []string
+				for b := 0; b < 255; b++ {
+					if (word(b) != word(b+1) || (b == '\n') != (b+1 == '\n')) && !boundary[b] {
+						missing = append(missing, fmt.Sprintf("0x%02X|0x%02X", b, b+1))
+					}
+				}
+				o2 := core.Obligation{Key: "R-BYTECLASS|" + core.FuncName(fn) + "|assertion bytes separated", Pos: p.Pos(fn.Pos()), Nontrivial: true}
+				if len(missing) == 0 {
+					o2.Status = core.Discharged
+					o2.Detail = fmt.Sprintf("%d constant SetRange calls put a class boundary at every edge of the word class [0-9A-Za-z_] and around the newline", nconst)
+				} else {
+					o2.Status = core.Violated
+					o2.Detail = "no class boundary between " + strings.Join(missing, ", ") + ": the bytes on the two sides differ for \\b/\\B (or a line anchor) but can share a byte class, so the lazy DFA reuses the transition cached for whichever of them it saw first (the answer depends on earlier inputs)"
+				}
+				res.Obligations = append(res.Obligations, o2)
 			}
 			return res
 		},
